@@ -1,5 +1,5 @@
 SPECIFICATION Spec
 CONSTANTS
-  MaxLen = 2
+  MaxLen = 3
 INVARIANT FillInert
 CHECK_DEADLOCK FALSE
